@@ -75,6 +75,16 @@ NEEDS = {
  "C08d": ("names file split at LF and the last element dropped unconditionally", "a names file whose last line has no trailing newline: the last name is lost"),
  "C09d": ("shared skf_filename helper using with_extension (build, merge, delete)", "an output prefix with a dot: the table is saved under another name and can overwrite an unrelated file"),
  "C10d": ("same with_extension helper, found independently", "delete -o all.sub overwrites all.skf; build -o run.1 / run.2 clobber each other"),
+ "C11d": ("build_and_merge re-deals paired-read inputs between assemblies on the parallel branch only (balance_inputs)", "ska build -f list mixing two-column (FASTA) and three-column (paired FASTQ) lines, >= 10 samples and --threads >= 2: sample order differs from the serial build"),
+ "C12d": ("NtHashIterator::new seeds the hash by upper-case ASCII letter; roll_fwd still uses the 2-bit code", "paired FASTQ, --min-count >= 2, a read with a lower-case base in its first window whose k-mers occur elsewhere in other case"),
+ "C13d": ("RefSka::new skips records whose name (first header token) was already seen", "a weed FASTA in which two records share their first header token (>IS1 copy1 / >IS1 copy2)"),
+ "C14d": ("distance(): the frequency pre-filter became an argument of log::info! and only runs under -v", "ska distance without -v, --min-freq with threshold >= 2, k-mers below it"),
+ "C15d": ("add_palindrome_to_dict, S arm: bases tested with G assumed to be code 2", "a self-reverse-complement split k-mer first seen with C or G and then with G or T"),
+ "C16d": ("same ASCII seed table as C12d, found independently", "rolled hash vs from-scratch hash of a window with lower-case bases (FASTQ, min-count >= 2)"),
+ "C17d": ("ska lo reference reader strips LF only: CR counted as a genome position", "ska lo -r with a wrapped CRLF reference and a SNP beyond the first line"),
+ "C18d": ("indel VCF header lists the samples sorted, genotype columns stay in skf order", "an skf whose sample names are not in lexicographic order"),
+ "C19d": ("load() falls back to NAME.skf when NAME fails to load for any reason", "a damaged file named without the .skf suffix with an intact NAME.skf beside it (the layout weed -o NAME leaves)"),
+ "C20d": ("ska cov treats base calls of quality <= 2 like N (Strict filter with min_qual 3)", "FASTQ reads with quality characters ! \" or # on called bases"),
  "C20b": ("CoverageHistogram::new: break instead of skip at the first read without a valid split k-mer", "a read shorter than k or with every N-free stretch shorter than k, followed by more reads in the same file"),
 }
 HISTORY = {
@@ -105,6 +115,12 @@ HISTORY = {
  "C09d": "see C07d",
  "C10d": "see C07d",
  "C08d": "missed when written (names files always ended in a newline); names files are now written in five layouts: with and without a final newline, CRLF, trailing blank line, trailing white space",
+ "C11d": "missed when written (build lists were all-FASTA or all-FASTQ); half of the FASTQ pipeline cases now mix two-column and three-column lines in one list",
+ "C12d": "reported by C16 (rolled vs fresh hash on mixed-case sequence) but missed by C12 itself (upper-case reads); a third of the C12 reads are now partly lower case",
+ "C13d": "missed when written (weed records were named r0, r1, ...); half of the weed files now carry header descriptions and share their first token in groups of three",
+ "C17d": "missed when written (LF references); every fourth ska lo reference now has CRLF line endings",
+ "C19d": "missed when written (damaged files were always called d.skf); half of the damaged files of the CLI stage are now called d with the intact file as d.skf beside them",
+ "C20d": "missed when written (all base qualities were 'I'); half of the read sets now carry arbitrary quality characters including ! \" #",
  "C17": "missed by the first version of the C17 check (ska lo was always run with the default -m or 0.4); the -m values 0, 0.05, 0.4, 1 were added to the isolated-SNP stages and now report it",
 }
 res = {}
